@@ -311,6 +311,7 @@ PROPS["C20"] = {
     "bins": ["build/bin/c20", "build/bin/c20_tsan"],
     "extra_targets": ["build/plain/liburi_plain.so", "build/plain/liburi.a"],
     "symbol_scan": {"allow": ["defaultMemoryManager"]},
+    "shrink_limit": 300,  # every case starts threads: keep shrinking short
     "quick": {"cases": [1500, 1500], "workers": 8},
     "thorough": {"cases": [40000, 40000], "ceiling_s": 3000},
     "rule": ("workload = shared inputs from correlated generators + 2..8 threads x 3..10 ops (13 op kinds) x 3 repetitions with generated yield/spin points, char or wchar_t API; run once under ASan with the "
